@@ -273,9 +273,10 @@ def assemble(prop, tier, seed, spec, quals, lem, results, t_start):
         "wall_s": round(time.time() - t_start, 2),
         "violations": len(violations) + len(new_failures),
     }
-    os.makedirs(os.path.join(VERIF, "evidence"), exist_ok=True)
-    with open(os.path.join(VERIF, "evidence", f"{prop}.json"), "w") as f:
-        json.dump(ev, f, indent=1, default=str)
+    if not os.environ.get("VERIF_NO_EVIDENCE"):     # (developer runs against scratch trees do not overwrite evidence)
+        os.makedirs(os.path.join(VERIF, "evidence"), exist_ok=True)
+        with open(os.path.join(VERIF, "evidence", f"{prop}.json"), "w") as f:
+            json.dump(ev, f, indent=1, default=str)
     print(f"{prop}: functions={len(quals)} lemmas={len(lem)} obligations={len(obs)} discharged={len(discharged)} known-findings={len(known)} "
           f"violations={len(violations)} undecided={len(undecided)} errors={len(errors)} standin-evals={standin.get('summary', {}).get('evaluations', 0)} "
           f"wall={ev['wall_s']}s")
